@@ -288,6 +288,22 @@ func caseC20(c *Ctx) {
 		case 4: // Reset removes all resources
 			if len(held) == 0 {
 				s.Do(&Op{K: "Reset"})
+				if c.R.Chance(0.5) && !s.Failed() {
+					// resources added to the reset world, then entities loaded from a dump: loading is an entity operation
+					for id := range s.ResIDs {
+						if c.R.Chance(0.5) {
+							v := reflect.New(TypeOfKey(s.ResKeys[id])).Interface()
+							s.W.Resources().Add(s.ResIDs[id], v)
+							s.Res.Present[id] = v
+							s.keep = append(s.keep, v)
+						}
+					}
+					s.kept = helperDump(c.R, 3+c.R.Intn(40))
+					s.Do(&Op{K: "LoadKept"})
+					if !s.Failed() && !checkResources(s) {
+						break
+					}
+				}
 			}
 		case 5: // hold a query open: resources are independent of world locking
 			if len(held) < 3 {
